@@ -58,6 +58,18 @@ impl Args {
 }
 
 fn main() {
+    // the extra pass on the unoptimised build runs everything on a thread with Rust's default
+    // thread stack of 2 MiB (what a test or a spawned worker thread of a user has), not on the
+    // 8 MiB main thread
+    if std::env::var("ITREE_SIM_PROFILE").ok().as_deref() == Some("dev") {
+        let h = std::thread::Builder::new().stack_size(2 * 1024 * 1024).spawn(real_main).expect("spawn");
+        let _ = h.join();
+        std::process::exit(101);
+    }
+    real_main();
+}
+
+fn real_main() {
     let args = parse_args();
     let cmd = args.pos.first().cloned().unwrap_or_default();
     let code = match cmd.as_str() {
